@@ -201,6 +201,9 @@ def sweep(chk, sets, seeds, label):
             chk.nontrivial(set_digest(s))
         for ob in OBS:
             vals = [json.dumps(r[ob]) for r in recs]
+            if len(set(vals)) > 1 and len(chk.violations) - before >= 12:
+                chk.extra["further_seed_dependent_sets_not_written"] = chk.extra.get("further_seed_dependent_sets_not_written", 0) + 1
+                break
             if len(set(vals)) > 1:
                 by_seed = {str(sd): r[ob] for sd, r in zip(seeds, recs)}
                 detail = {"input": {"files": minimal_files(s), "main": s["main"], "set": s["name"]},
@@ -271,7 +274,11 @@ def cli_sweep(chk, sets, seeds):
                     "seeds": list(seeds), "expected": "byte-identical across PYTHONHASHSEED values",
                     "where": "embossc"}, key="hashseed:" + s["name"])
                 break
-    return {s["name"]: [r for t, r in zip(tasks, res) if t[0] == i][0] for i, s in enumerate(sets)}
+    out = {}
+    for i, s in enumerate(sets):
+        out[s["name"]] = dict([r for t, r in zip(tasks, res) if t[0] == i][0],
+                              root=os.path.join(common.scratch(), "cli%d" % i))
+    return out
 
 
 def two_process(chk, sets, embossc_results):
@@ -279,16 +286,15 @@ def two_process(chk, sets, embossc_results):
     fe = os.path.join(common.REPO, "compiler", "front_end", "emboss_front_end.py")
     be = os.path.join(common.REPO, "compiler", "back_end", "cpp", "emboss_codegen_cpp.py")
 
-    def go(t):
-        i, s = t
-        root = os.path.join(common.scratch(), "cli%d" % i)
+    def go(s):
+        root = embossc_results[s["name"]]["root"]
         irp, hp = os.path.join(root, "two.ir.json"), os.path.join(root, "two.h")
         a = run_cli(7, [fe, "--color-output", "never", "--output-file", irp, s["main"]], root)
         if a["rc"] != 0:
             return {"fe": a, "header": None}
         b = run_cli(11, [be, "--color-output", "never", "--input-file", irp, "--output-file", hp], root)
         return {"fe": a, "be": b, "header": open(hp).read() if os.path.exists(hp) else None}
-    res = pool_map(go, list(enumerate(sets)))
+    res = pool_map(go, sets)
     n = 0
     for s, r in zip(sets, res):
         one = embossc_results[s["name"]]
@@ -382,7 +388,8 @@ def history_check(chk, sets, r):
                                                 "F6-expected-token-order", "F7-cycle-group-order",
                                                 "import-cycles", "cpp-enum-case-bad", "empty")]
     targets += [s for s in sets if s["name"].startswith("gen:valid")][: 4 if chk.tier == "quick" else 20]
-    others = [s for s in sets if s["name"].startswith(("gen:valid", "anon-", "testdata:"))]
+    others = [s for s in sets if s["name"].startswith(("gen:valid", "anon-") if chk.tier == "quick" else
+                                                      ("gen:valid", "anon-", "testdata:"))]
     jobs = []
     for t in targets:
         pre = r.sample(others, min(len(others), r.randint(1, 4)))
@@ -462,8 +469,10 @@ def gen_scenario(r, n_jobs):
     return texts, jobs
 
 
-def scenario_check(chk, r, n_jobs, model_ok):
+def scenario_check(chk, tag, n_jobs, model_ok, only_job=None):
+    r = common.rng(tag)
     texts, jobs = gen_scenario(r, n_jobs)
+    sc_input = {"scenario_tag": tag, "n_jobs": n_jobs, "verif_seed": common.seed(), "jobs": [j[0] for j in jobs][:40]}
     real_text = {t: text_of(t, v["k"], v["imports"], v["ok"]) for t, v in texts.items()}
     sets = [{"name": "job%d" % i, "main": main, "files": {f: real_text[t] for f, t in b.items()}, "parse_only": True}
             for i, (main, b) in enumerate(jobs)]
@@ -483,23 +492,25 @@ def scenario_check(chk, r, n_jobs, model_ok):
                     parts.append("%s@%s+%d" % (f or "PRELUDE", nums[0] - 1 if nums else "?", len(nums)))
             real_lines.append("ok " + ",".join(parts))
     chk.count(len(jobs))
-    # spec oracle on the real numbering, model-free: within the process every (text, file)
-    # keeps its numbers, different keys never share a number, fresh numbers are handed out
-    # in increasing order
-    owner, seen_key = {}, {}
-    for (main, b), rec, s in zip(jobs, res["records"], sets):
-        for f, nums in rec["mods"]:
-            if not f:
-                continue
-            key = (s["files"].get(f), f)
-            if key in seen_key and seen_key[key] != nums:
-                chk.violation("input", {"input": {"jobs": [j[0] for j in jobs][:40]}, "observed": "module %s renumbered %s -> %s within one process" % (f, seen_key[key], nums),
-                                        "expected": "cached module keeps its numbering"}, key="scenario-renumbered")
-            seen_key[key] = nums
-            for n in nums:
-                if owner.setdefault(n, key) != key:
-                    chk.violation("input", {"input": {"jobs": [j[0] for j in jobs][:40]}, "observed": "anonymous number %d used by two modules" % n,
-                                            "expected": "numbers are unique per (text, file)"}, key="scenario-collision")
+    # spec oracle, model-free: a sample of the jobs is also compiled alone in a fresh
+    # interpreter; what the sequence produced must equal that up to an injective renaming
+    def spec_problem(i):
+        full = [dict(x, full=(j == i)) for j, x in enumerate(sets[: i + 1])]
+        seq = run_worker(5, {"sets": full})["records"][i]
+        fresh = run_worker(5, {"sets": [dict(sets[i], full=True)]})["records"][0]
+        if seq.get("errors") != fresh.get("errors") or seq.get("exc") != fresh.get("exc"):
+            return "diagnostics differ from a fresh process"
+        return renaming_problem(fresh.get("ir"), seq.get("ir")) or per_module_translation_problem(fresh.get("ir"), seq.get("ir"))
+    sample = r.sample(range(len(jobs)), 3 if chk.tier == "quick" else 6)
+    if only_job is not None:
+        sample = [only_job]
+    for i in sample:
+        why = spec_problem(i)
+        chk.count()
+        if why:
+            chk.violation("input", {"input": dict(sc_input, job=i), "observed": why,
+                                    "expected": "job result equal to a fresh-process compilation up to an injective renaming of anonymous numbers"},
+                          key="scenario-history")
     if not model_ok:
         return
     ttab = ["PT:ok:0:PRELUDE"] + ["%s:%s:%d:%s" % (t, "ok" if v["ok"] else "err", v["k"], ",".join(["PRELUDE"] + v["imports"]))
@@ -517,11 +528,12 @@ def scenario_check(chk, r, n_jobs, model_ok):
     for i, (a, b) in enumerate(zip(model_lines, real_lines)):
         if a != b:
             chk.extra["disagreements"] = chk.extra.get("disagreements", 0) + 1
-            chk.violation("correspondence", {
-                "op": line[:3000], "job": i, "model": a, "observed": b,
+            why = spec_problem(i)
+            chk.violation("input" if why else "correspondence", {
+                "input": dict(sc_input, job=i), "op": line[:3000], "job": i, "model": a, "observed": b,
                 "theorem_or_correspondence": "model_c17 RUN vs glue.parse_emboss_file numbering over a job sequence",
-                "expected": "the real numbering satisfied the model-free oracle (kept / unique / monotone); only the model differs"},
-                found_input=False)
+                "expected": why or "the job's result equals a fresh-process compilation up to an injective renaming; only the model differs"},
+                found_input=bool(why))
             break
     kinds = chk.extra.setdefault("scenario_job_kinds", {})
     for ln in real_lines:
@@ -627,7 +639,9 @@ def finish_generator_purity(chk, futs):
 def all_sets(tier, r):
     corpus = load_corpus()
     td, td_files = testdata_sets()
-    gen = gen_sets(r, 8 if tier == "quick" else 60, 16 if tier == "quick" else 200, td_files)
+    gen = gen_sets(r, 8 if tier == "quick" else 40, 16 if tier == "quick" else 120, td_files)
+    if tier == "quick":
+        td = r.sample(td, min(len(td), 14))      # the whole directory in the thorough tier
     return corpus, td, gen
 
 
@@ -686,7 +700,7 @@ def run(tier):
     for k in chk.known:
         if k.get("property") == PROP and k.get("status") == "open":
             pass    # none at present; violations route through chk.violation(key=...)
-    seeds = [0, 1, 2, 3, 4, 5] if tier == "quick" else list(range(32))
+    seeds = [0, 1, 2, 3, 4, 5] if tier == "quick" else list(range(24))
     chk.extra["hash_seeds"] = seeds
     tm = chk.extra.setdefault("phase_seconds", {})
     t0 = time.time()
@@ -698,20 +712,20 @@ def run(tier):
     sweep(chk, corpus + td + gen, seeds, "in-process batch")
     lap("sweep")
     cli_sets = [s for s in corpus if s["name"] in (
-        "F6-expected-token-order", "F7-cycle-group-order", "import-cycles", "anon-imports", "back-ends", "import-missing")]
+        "F6-expected-token-order", "F7-cycle-group-order", "anon-imports", "import-missing")]
     if tier == "thorough":
-        cli_sets = corpus + td[:10]
-    cli_seeds = [0, 1, 2] if tier == "quick" else list(range(12))
+        cli_sets = corpus + td[:6]
+    cli_seeds = [0, 1, 2] if tier == "quick" else list(range(8))
     cli_res = cli_sweep(chk, cli_sets, cli_seeds)
     lap("cli_sweep")
-    two_process(chk, cli_sets if tier == "thorough" else cli_sets[:4], cli_res)
+    two_process(chk, cli_sets if tier == "thorough" else cli_sets[1:4], cli_res)
     lap("two_process")
     import_dir_permutations(chk, r)
     lap("import_dirs")
     history_check(chk, corpus + td + gen, r)
     lap("history")
     for i in range(1 if tier == "quick" else 8):
-        scenario_check(chk, common.rng("C17-scenario-%d" % i), 60 if tier == "quick" else 150, model_ok)
+        scenario_check(chk, "C17-scenario-%d" % i, 60 if tier == "quick" else 150, model_ok)
     lap("scenarios")
     small_models_check(chk, r, model_ok)
     lap("small_models")
@@ -724,6 +738,24 @@ def replay(path):
     with open(path) as f:
         rec = json.load(f)
     inp = rec.get("input")
+    if isinstance(inp, dict) and "scenario_tag" in inp:
+        os.environ["VERIF_SEED"] = str(inp.get("verif_seed", 0))
+        chk = common.Check(PROP, "quick")
+        scenario_check(chk, inp["scenario_tag"], inp["n_jobs"], False, only_job=inp.get("job"))
+        print("job sequence %s (%d jobs) re-executed: %d violation(s) of the fresh-process oracle" % (
+            inp["scenario_tag"], inp["n_jobs"], len(chk.violations)))
+        return 1 if chk.violations else 0
+    if isinstance(inp, dict) and "files" in inp and str(rec.get("key", "")).startswith(("repeat:", "history:")):
+        me = {"name": "replay", "files": inp["files"], "main": inp["main"], "full": True}
+        pre = [s for s in load_corpus() if s["name"] == "anon-12"]
+        fresh = run_worker(3, {"sets": [me]})["records"][0]
+        hist = [x for x in run_worker(3, {"sets": [dict(p, full=False) for p in pre] + [me, me]})["records"] if x["name"] == "replay"]
+        same = all(hist[0].get(k) == hist[1].get(k) for k in ("exc", "ir", "header", "errors", "errors_src"))
+        why = renaming_problem(fresh.get("ir"), hist[0].get("ir")) or renaming_problem(fresh.get("header"), hist[0].get("header")) \
+            or (None if fresh.get("errors") == hist[0].get("errors") else "diagnostics differ")
+        print("second compilation in the same process identical to the first:", same)
+        print("after history (anon-12 first) vs fresh process:", why or "equal up to an injective renaming")
+        return 0 if same and not why else 1
     if not isinstance(inp, dict) or "files" not in inp:
         print("nothing to re-execute for this record kind:", rec.get("kind"), json.dumps(inp)[:400])
         return 0
